@@ -453,7 +453,7 @@ func longScripts(r *rand.Rand, extra int) []*script {
 // crossed inside the history: a code expires, the minimum interval ends, the send window is renewed.
 // Calls not separated by a sleep are microseconds apart.  The case is used only when the measured
 // timing was unambiguous (runScriptTimed); otherwise it is re-run with a larger D or dropped.
-func histTimed(r *rand.Rand, d int64) *script {
+func histTimed(r *rand.Rand, d int64, kind int) *script {
 	c := genCfg(r)
 	c.CacheSize = 1000
 	c.TTL, c.MinInterval, c.CounterDuration = hugeDur(r), 0, hugeDur(r)
@@ -467,7 +467,20 @@ func histTimed(r *rand.Rand, d int64) *script {
 	add := func(o opScript) { s.Ops = append(s.Ops, o) }
 	right := opScript{K: "verify", A: q.a, P: q.p, Code: "right", Hash: "right"}
 	sleep := opScript{K: "sleep", Sleep: d*5/2 + 1}
-	switch r.Intn(4) {
+	switch kind % 5 {
+	case 4: // the lifetime runs from the send that went out: refused sends in between do not prolong it
+		s.Class = "timed-ttl-refused"
+		c.TTL = d
+		c.MinInterval = hugeDur(r)
+		c.MaxCount = 5
+		short := opScript{K: "sleep", Sleep: d * 2 / 5}
+		add(genSend(r, q))
+		add(short)
+		add(genSend(r, q)) // refused: inside the minimum interval
+		add(right)         // clearly before the deadline
+		add(sleep)
+		add(genSend(r, q)) // refused again, just before ...
+		add(right)         // ... a verification clearly after the ORIGINAL deadline
 	case 0: // the code's lifetime
 		s.Class = "timed-ttl"
 		c.TTL = d
@@ -561,6 +574,49 @@ func runTimed(scripts []*script) (cases []vh.Case, dropped int) {
 		}
 	}
 	return cases, dropped
+}
+
+// ---------------------------------------------------------------- configuration values at the ends of their types
+
+var extremeInts = []int{0, 1, -1, math.MaxInt, math.MaxInt - 1, math.MinInt, math.MinInt + 1, math.MaxInt32, math.MaxInt32 + 1, math.MaxInt32 - 1, math.MinInt32, math.MinInt32 - 1, 1 << 16, 2}
+var extremeDurs = []int64{math.MaxInt64, math.MaxInt64 - 1, math.MinInt64, math.MinInt64 + 1, -1, 1000 * hour}
+
+// cfgvalues: MaxVerifyCount, MaxCount, CacheSize and the three durations at 0, +-1, the ends of int / int64 and
+// around 2^31; "within the attempt limit" and "beyond the count limit" must mean the same for any configured limit
+// (MaxInt = unlimited, MinInt = nothing allowed)
+func histCfgValues(r *rand.Rand, mv, mc int) *script {
+	c := genCfg(r)
+	c.CacheSize = 1000
+	if r.Intn(4) == 0 {
+		c.CacheSize = math.MaxInt64 - int64(r.Intn(2))
+	}
+	c.MaxVerify, c.MaxCount = mv, mc
+	c.TTL = extremeDurs[r.Intn(len(extremeDurs))]
+	if r.Intn(3) != 0 {
+		c.TTL = hugeDur(r)
+	}
+	c.MinInterval = 0
+	switch r.Intn(4) {
+	case 0:
+		c.MinInterval = extremeDurs[r.Intn(len(extremeDurs))]
+	case 1:
+		c.MinInterval = -1
+	}
+	c.CounterDuration = extremeDurs[r.Intn(len(extremeDurs))]
+	if c.CodeLen < 1 {
+		c.CodeLen = 4
+	}
+	ps := genPairs(r, 1+r.Intn(2), c.CodeLen)
+	q := ps[0]
+	s := &script{Class: "cfgvalues", Cfg: c}
+	right := opScript{K: "verify", A: q.a, P: q.p, Code: "right", Hash: "right"}
+	wrong := opScript{K: "verify", A: q.a, P: q.p, Code: "mut", Hash: "right", Pos: r.Intn(8)}
+	s.Ops = append(s.Ops, genSend(r, q), right, wrong, right, wrong, wrong, right)
+	for i := 0; i < 3; i++ {
+		s.Ops = append(s.Ops, genSend(r, q))
+	}
+	s.Ops = append(s.Ops, right, genVerify(r, ps, ps[len(ps)-1]), genSend(r, q), right)
+	return s
 }
 
 // ---------------------------------------------------------------- code / nonce lengths at buffer boundaries
@@ -729,12 +785,21 @@ func generate(e *vh.Env) {
 		ch = append(ch, h)
 		cn = append(cn, nonceOfLen(r, "0123456789", n))
 	}
+	// the limits at the ends of int: every run
+	for _, v := range []int{math.MaxInt, math.MaxInt - 1, math.MinInt, math.MaxInt32 + 1} {
+		ch = append(ch, histCfgValues(r, v, 2), histCfgValues(r, 2, v))
+	}
 	for _, s := range ch {
 		e.Emit(runScript(s))
 	}
 	for _, s := range cn {
 		e.Emit(runNonce(s))
 	}
+	ncv := e.Scale(60, 600)
+	for i := 0; i < ncv; i++ {
+		e.Emit(runScript(histCfgValues(r, extremeInts[r.Intn(len(extremeInts))], extremeInts[r.Intn(len(extremeInts))])))
+	}
+	e.Meta["cfgvalues_histories"] = ncv + 8
 	ncl := e.Scale(40, 400)
 	for i := 0; i < ncl; i++ {
 		e.Emit(runScript(histCodeLen(r, boundaryLen(r, i%12 == 11))))
@@ -778,10 +843,10 @@ func generate(e *vh.Env) {
 	for _, s := range long {
 		e.Emit(runScript(s))
 	}
-	nt := e.Scale(12, 60)
+	nt := e.Scale(15, 60)
 	var timed []*script
 	for i := 0; i < nt; i++ {
-		timed = append(timed, histTimed(r, 60_000_000))
+		timed = append(timed, histTimed(r, 60_000_000, i))
 	}
 	tc, dropped := runTimed(timed)
 	for _, c := range tc {
